@@ -1,4 +1,5 @@
 import QModel.C12
+import QGen.C12
 import QProofs.Bridge
 import Mathlib.Tactic.Ring
 import Mathlib.Tactic.Abel
@@ -233,4 +234,102 @@ theorem bilFlat_block (as bs : List (Vec K m)) (Ws : List (Mat K m m))
           simp
 
 end blocks
+end QM.C12
+
+namespace QM.C12
+open QM
+section noweights
+variable {K : Type} [Field K] {m nv : Nat}
+
+/-- `Σ_j a_j · b_j` over the blocks -/
+def dotBlocks : List (Vec K m) → List (Vec K m) → K
+  | a :: as, b :: bs => a.dot b + dotBlocks as bs
+  | _, _ => 0
+
+theorem bilFlat_none_cat (as bs : List (Vec K m)) (h : as.length = bs.length) :
+    bilFlat (as.length * m) none (catEntry as) (catEntry bs) = dotBlocks as bs := by
+  induction as generalizing bs with
+  | nil => cases bs <;> simp_all [bilFlat_none, dotBlocks]
+  | cons a as ih =>
+    cases bs with
+    | nil => simp at h
+    | cons b bs =>
+      simp only [List.length_cons, Nat.add_right_cancel_iff] at h
+      have ih' := ih bs h
+      rw [bilFlat_none] at ih' ⊢
+      simp only [dotBlocks]
+      rw [← ih']
+      have hN : (as.length + 1) * m = m + as.length * m := by ring
+      rw [List.length_cons, ← Fin.sum_congr' _ hN.symm, Fin.sum_univ_add]
+      simp only [Fin.val_cast, Fin.val_castAdd, Fin.val_natAdd]
+      congr 1
+      · rw [Vec.dot_eq]
+        simp only [dotProduct, Vec.toV]
+        refine Finset.sum_congr rfl fun i _ => ?_
+        rw [catEntry_lt a as i.val i.isLt, catEntry_lt b bs i.val i.isLt]
+      · refine Finset.sum_congr rfl fun i _ => ?_
+        rw [catEntry_ge, catEntry_ge]
+
+theorem resolve_none (ss : List (Sched K m nv)) (j : Nat) :
+    resolve (none : Option (List (Mat K m m))) ss j = some (ss.map fun s => (s, none)) := by
+  induction ss generalizing j with
+  | nil => simp [resolve]
+  | cons s r ih => simp [resolve, weightAt, ih (j + 1)]
+
+theorem map_sum_eq_dotBlocks (f g : Sched K m nv → Vec K m) (ss : List (Sched K m nv)) :
+    ((ss.map fun s => (s, (none : Option (Mat K m m)))).map fun p => bil p.2 (f p.1) (g p.1)).sum
+      = dotBlocks (ss.map f) (ss.map g) := by
+  induction ss with
+  | nil => simp [dotBlocks]
+  | cons s r ih =>
+    simp only [List.map_cons, List.sum_cons, dotBlocks]
+    rw [ih]
+    simp [bil]
+
+end noweights
+end QM.C12
+
+/-! ## interpretation of the GENERATED mode table / call order (QGen.C12) over the state records -/
+namespace QM.C12
+open QM
+
+section generated
+variable {K : Type} [Add K] [Sub K] [Mul K] [Div K] [Zero K] [One K] [LT K] [DecidableLT K] [NatCast K] {m : Nat}
+
+/-- the argument a generated branch hands to the setter -/
+def interpBranch (opt : Opt K m) (G : List (Mat K (m - 1) (m - 1))) :
+    QGen.C12.Branch → Option (List (Mat K m m))
+  | .reset => none
+  | .optionWeights => opt.weights
+  | .invCov _ => some (invCovWeights G)
+
+/-- one call of the generated wiring list on the fast loss's weighting state; an unknown method is an error -/
+def stepFast (atol : K) (opt : Opt K m) (grad : Bool) (G : List (Mat K (m - 1) (m - 1)))
+    (call : String × String) (st : FastWse K m) : Except Err (FastWse K m) :=
+  let active := call.2 = "always" || (call.2 = "grad" && grad)
+  if call.1 = "set_func_prob_dists_from_standard_qt" || call.1 = "set_func_gradient_prob_dists_from_standard_qt" then
+    .ok (if active then calcExt st else st)
+  else if call.1 = "set_from_option" || call.1 = "set_prob_dists_q"
+      || call.1 = "set_func_hessian_prob_dists_from_standard_qt" then .ok st
+  else if call.1 = "_set_weights_by_mode" then
+    match QGen.C12.wseBranch (modeName opt.mode) with
+    | none => .ok st
+    | some b =>
+      let w := interpBranch opt G b
+      if validWs atol w then .ok (setWeightsFast st w) else .error .notSymmetric
+  else .error .shape
+
+def interpFast (atol : K) (opt : Opt K m) (grad : Bool) (G : List (Mat K (m - 1) (m - 1))) :
+    List (String × String) → FastWse K m → Except Err (FastWse K m)
+  | [], st => .ok st
+  | c :: r, st => do
+    let st' ← stepFast atol opt grad G c st
+    interpFast atol opt grad G r st'
+
+/-- the branch the hand-written model implements for each handled mode -/
+def expectedBranch : Mode → QGen.C12.Branch
+  | .identity => .reset | .custom => .optionWeights | .invSample => .invCov false | .invUnbiased => .invCov true
+  | .unbiasedInv => .invCov true
+
+end generated
 end QM.C12
